@@ -147,6 +147,7 @@ def translation_audit(pid, extra, failures, results):
                 errors.update(errs)
             except Exception as e:
                 errors[g] = "crashed: %r" % e
+        errors = {k: v for k, v in errors.items() if k not in extra.get("ignore_errors", [])}   # functions other properties own
         for fn, e in errors.items():
             failures.append("translation of %s: %s" % (fn, e))
         if gnames and not errors:
